@@ -16,6 +16,7 @@ import itertools
 import json
 import os
 import sys
+import time
 import traceback
 import types
 
@@ -353,6 +354,16 @@ def gen_styled_class(rng, cname, later_names, strip_defaults_of=None):
     rng.shuffle(tail)
     members += tail
     return {'name': cname, 'styled': True, 'members': members, 'items': [s[2] for s in slots]}
+
+
+def lit_tok(l):
+    if l is None or isinstance(l, dict):
+        return l
+    if isinstance(l, bool):
+        return {'b': l}
+    if isinstance(l, int):
+        return {'i': l}
+    return {'s': l}
 
 
 def explicit_of(rhs):
@@ -971,6 +982,11 @@ def oracle(ctx, case, ci, cls, obs, quirks):
                 fail('%s %s became a constructor parameter' % (it['kind'], it['name']))
         if it['kind'] == 'ro' and it['with_field'] and '_' + it['name'] not in got_params:
             fail('field _%s next to read-only property %s was renamed or dropped' % (it['name'], it['name']))
+    for m in cls['members']:
+        if m['k'] == 'assign' and any(it['kind'] == 'attr' and it['name'] == m['n'] for it in items):
+            want = json.dumps({'lit': lit_tok(m['r']['lit'])}, sort_keys=True)
+            if attrs.get(m['n']) != want:
+                fail('plain attribute %s is now %s, the class body bound it to %s' % (m['n'], attrs.get(m['n']), want))
     kept = dict(map(tuple, obs['getter_kept']))
     for it in pf:
         if not kept.get(it['pub']):
@@ -1131,12 +1147,60 @@ def run(ctx: C.Ctx):
                 'every subset of the optional constructor arguments (<= 4 optional, else empty/full/(co-)singletons), a missing '
                 'required argument, an unexpected keyword, a property object as argument; two instances per argument set; later '
                 'assignments. Non-trivial = a case with at least one settable property.')
+    ctx.trusted += [
+        'C16 model (DW/Model/C16.lean) is a hand transcription of property_wizard.py, of CPython class-body name binding, '
+        'of dataclasses field collection / __init__ (defaults, init=False, "non-default follows default", mutable-default '
+        'and un-annotated-Field errors) and of functools-wrapped setters; only the correspondence check ties it to the code',
+        'the T() table of the model (which annotation objects can be called without arguments, what they return, '
+        'isinstance(list/dict/set)) is sampled against CPython on every run (law:zero)',
+    ]
+    ctx.assumptions += [
+        'classes without bases (metaclass=property_wizard only); no ClassVar/InitVar/KW_ONLY, no slots/frozen',
+        'model correspondence is restricted to bodies whose settable properties are independent (not both x and _x as '
+        'properties); colliding bodies are counted and skipped',
+        'an un-subscripted typing alias (typing.List) may route its zero value or None: the statement does not say which',
+    ]
     quirks = probe_quirks()
     ctx.notes['probed_quirks'] = quirks
-    ncases = ctx.quick(1500, 20000)
+    ncases = ctx.quick(1500, 12000)
+    budget = ctx.quick(45, 420)            # seconds for the case loop (the machine may be loaded)
+    t0 = time.time()
     reqs, pend = [], []
+
+    def flush():
+        """one driver batch per chunk of cases (keeps the forking parent small)"""
+        if ctx.model_available and reqs:
+            outs = ctx.driver.run(reqs)
+            for (kind, case, obs), o in zip(pend, outs):
+                if 'r' not in o:
+                    ctx.agree(kind + ':model', case, impl_canon(obs), {'driver_error': o.get('err')})
+                    continue
+                if not o['r'].get('independent', True):
+                    # two settable properties write the same class attribute (both `x` and `_x` are properties): outside
+                    # the documented styles and outside the model (the metaclass may delete `_x` twice and raise, or
+                    # mutate the Field carried by an Annotated annotation that the other property reads)
+                    ctx.count('not-independent:skipped')
+                    continue
+                if obs['cls'].startswith('wizard:'):
+                    ctx.agree(kind + ':model', case, {'cls': obs['cls']}, {'cls': o['r']['cls']})
+                    continue
+                ctx.agree(kind + ':model', case, impl_canon(obs), model_canon(o['r'], obs))
+        del reqs[:]
+        del pend[:]
+
+    # ---- law check: the model's T() table against CPython
+    lreqs, lmeta = law_requests()
+    limpl = law_impl(lmeta)
+    if ctx.model_available and ctx.only is None:
+        for py, im, o in zip(lmeta, limpl, ctx.driver.run(lreqs)):
+            ctx.seen('law:zero', py, nontrivial=True)
+            ctx.agree('law:zero', py, im, o.get('r', {'driver_error': o.get('err')}))
+
     for i in range(ncases):
         if ctx.done(i):
+            break
+        if ctx.only is None and time.time() - t0 > budget:
+            ctx.notes['stopped_after_cases'] = i
             break
         case = gen_case(rng, i)
         if not ctx.begin_case(i):
@@ -1153,6 +1217,7 @@ def run(ctx: C.Ctx):
                 if it['kind'] == 'propfield':
                     ctx.count('style:' + it['style'])
                     ctx.count('ann:' + it['ty']['k'])
+                    ctx.count('default:' + ('none' if it.get('explicit') is None else 'factory' if 'factory' in it['explicit'] else 'plain' if it['explicit'].get('plain') else 'field'))
             if obs['cls'].startswith('wizard:'):
                 if cls['styled']:
                     ctx.fail(case['kind'], case, '%s: the metaclass raised %s' % (cls['name'], obs.get('detail')), detail=dict(src=render_class(cls)))
@@ -1165,25 +1230,6 @@ def run(ctx: C.Ctx):
                 oracle(ctx, case, ci, cls, obs, quirks)
             reqs.append(model_request(cls, obs, quirks))
             pend.append((case['kind'], {'class': cls['name'], 'src': render_class(cls), 'index': i}, obs))
-    # ---- law check + model
-    lreqs, lmeta = law_requests()
-    limpl = law_impl(lmeta)
-    if ctx.model_available:
-        outs = ctx.driver.run(lreqs + reqs)
-        for py, im, o in zip(lmeta, limpl, outs[:len(lreqs)]):
-            ctx.seen('law:zero', py, nontrivial=True)
-            ctx.agree('law:zero', py, im, o.get('r', {'driver_error': o.get('err')}))
-        for (kind, case, obs), o in zip(pend, outs[len(lreqs):]):
-            if 'r' not in o:
-                ctx.agree(kind + ':model', case, impl_canon(obs), {'driver_error': o.get('err')})
-                continue
-            if not o['r'].get('independent', True):
-                # two settable properties write the same class attribute (both `x` and `_x` are properties): outside the
-                # documented styles and outside the model (the metaclass may delete `_x` twice and raise, or mutate the
-                # Field carried by an Annotated annotation that the other property reads)
-                ctx.count('not-independent:skipped')
-                continue
-            if obs['cls'].startswith('wizard:'):
-                ctx.agree(kind + ':model', case, {'cls': obs['cls']}, {'cls': o['r']['cls']})
-                continue
-            ctx.agree(kind + ':model', case, impl_canon(obs), model_canon(o['r'], obs))
+        if len(reqs) >= 800:
+            flush()
+    flush()
